@@ -993,7 +993,8 @@ func (ev *Ev) selectFrom(base Value, name string, at ast.Expr) Value {
 		for _, i := range idx[:len(idx)-1] {
 			recv = ev.stepField(recv, i, pos)
 		}
-		return Value{K: vMethod, Obj: fn, Typ: fn.Type(), Recv: &recv}
+		// as a value (x.m passed around) a bound method is a non-nil function reference; approximated by the method's own reference
+		return Value{K: vMethod, Obj: fn, Typ: fn.Type(), Recv: &recv, T: ev.u.funcRef(fn), S: SRef}
 	}
 	cur := base
 	for _, i := range idx {
